@@ -69,7 +69,7 @@ Theorem C16_apply_accepts : forall o indent doc t,
   exists out, api_apply o indent [] doc = ROut out.
 Proof.
   intros o indent doc t PO P RC T.
-  destruct (api_apply_sim o indent [] doc t PO P RC T (Forall_nil _)) as [n [H _]]. eauto.
+  destruct (api_apply_sim o indent [] doc t PO P RC T (Forall_nil _) eq_refl) as [n [H _]]. eauto.
 Qed.
 Print Assumptions C16_apply_accepts.
 
